@@ -12,11 +12,12 @@ ORACLES = {"c14_jet_codes_replay": "jets_native.rs", "c16_policy_sort_replay": "
 
 BOUNDS = {
     "c02_codec_replay": "every byte string of <= 3 bytes and 1..40 0xff bytes + 2-byte tails as program (commit-time, expression and redeem-time decoders, Core jets; witnesses of <= 1 byte); "
-                        "every combinator tree of depth <= 2 over iden/unit/witness/fail/word/jet leaves encoded and decoded again",
+                        "every combinator tree of depth <= 2 over iden/unit/witness/fail/word/jet leaves encoded and decoded again; six redemption programs with witnesses of types 1, 1x1, 2^8x2^8, (A+B)xC, 2^64x2^64 "
+                        "round-tripped with every decoded witness checked against its node's target type",
     "c14_jet_codes_replay": "all 1267 jets, three continuations each; all 24-bit inputs per family",
     "c16_policy_sort_replay": "all policies of nesting depth <= 2 over After(1..3) leaves (and/or/threshold)",
     "c18_dag_replay": "comp/pair DAGs of depth <= 3 over unit with every reuse/copy choice among the first 6 sub-DAGs per level, as commitment-time programs",
-    "c11_value_order_replay": "about 2000 values of widths <= 24 bits built by constructors, by decoding padded / compact bits and by sub-value extraction (depth <= 3); all pairs",
+    "c11_value_order_replay": "about 2000 values of widths <= 24 bits built by constructors, by decoding padded / compact bits and by sub-value extraction (depth <= 3): all pairs for eq/cmp/hash; encode/decode, accessor/constructor inverses, products of extracted parts, pruning to unit-left and to the own type",
     "c19_budget_replay": "stacks of {0,1,2,5,251..254,300,65535,65536} items of {0,1,2,252,253,254} bytes; weights at budget-2 .. budget+65537",
     "c09_cmr_replay": "all combinator trees of depth <= 2 over iden/unit/witness/fail leaves, as nodes / bare roots / hiding wrappers, and converted to commitment- and redemption-time nodes",
 }
@@ -47,7 +48,12 @@ def run(test, repo, timeout=3000):
     except subprocess.TimeoutExpired:
         return "inconclusive", [], "timeout"
     out = p.stdout + p.stderr
-    cex = re.findall(r"^CEX: (.*)$", out, re.M)
+    cex = re.findall(r"(?:^|\.\.\. )CEX: (.*)$", out, re.M)
+    if not cex and re.search(r"test result: FAILED", out):
+        # the library itself panicked inside the enumeration: report the panic site and message
+        pm = re.search(r"panicked at ([^\n]*):\n([^\n]*)", out)
+        if pm and "verif_native" not in pm.group(1):
+            cex = ["the library PANICS inside the enumeration at %s: %s" % (pm.group(1), pm.group(2))]
     if re.search(r"test result: FAILED", out):
         return "fails", cex, out[-3000:]
     if re.search(r"test result: ok\. 1 passed", out):
